@@ -31,8 +31,10 @@ def effects(f, R):
         b = m(('idx', '$arr', ('elem', ('agg', '_', (('k', 0), '$K')), '$L')), tg)
         if b is not None:
             c = m(('call~', '::index', ('$counts', ('elem', '_', '$L2'))), rhs) or m(('idx', '$counts', ('elem', '_', '$L2')), rhs)
-            if c is not None and c['$L2'] == b['$L'] and 'USIZE' in X.canon(b['$K']):
-                out.append({'kind': 'bg-all', 'op': op, 'arr': b['$arr'], 'counts': c['$counts'], 'block': s['block'], 'span': s['span']})
+            if c is not None and c['$L2'] == b['$L']:
+                full = b['$K'][0] == 'kc' and b['$K'][1].endswith('Unsigned::USIZE')
+                out.append({'kind': 'bg-all', 'op': op, 'arr': b['$arr'], 'counts': c['$counts'], 'block': s['block'], 'span': s['span'],
+                            'range_full': full, 'range': b['$K']})
                 continue
         b = m(('idx', '$arr', ('call~', 'as_index', (('call~', '::index', ('$seq', ('elem', ('agg', '_', ('$lo', '$hi')), '$L'))),))), tg)
         if b is not None and rhs == ('k', 1):
@@ -79,6 +81,8 @@ def r161(db, ctx):
                 sq = m(('idx', '$seqs', ('p', 2)), e['seq']) or m(('call~', '::index', ('$seqs', ('p', 2))), e['seq'])
                 if sq is None or 'sequences' not in X.canon(e['seq']):
                     probs.append(f'{e["kind"]} reads symbols from {X.show(e["seq"], 60)}, expected sequences[z]')
+            if e['kind'] == 'bg-all' and not e['range_full']:
+                probs.append(f'bg-all loop runs over 0..{X.show(e["range"], 80)}, not over all K symbol indices 0..K::USIZE (some symbol counts never reach the background)')
             if e['kind'] == 'bg-all':
                 c = m(('call~', '::index', ('$c', ('p', 2))), e['counts']) or m(('idx', '$c', ('p', 2)), e['counts'])
                 if c is None or 'counts' not in X.canon(e['counts']):
@@ -147,6 +151,8 @@ def r162(db, ctx):
             if e['seq'] != ('fld', zi[1], '1'):
                 probs.append(f'{e["kind"]} reads symbols from {X.show(e["seq"], 60)}, not the i-th sequence')
         else:
+            if not e['range_full']:
+                probs.append(f'bg-all loop runs over 0..{X.show(e["range"], 80)}, not over all K symbol indices')
             c = m(('call~', '::index', ('$c', zi)), e['counts'])
             if c is None or 'counts' not in X.canon(e['counts']):
                 probs.append('bg-all does not add data.counts[i]')
